@@ -153,13 +153,21 @@ func c07Build(k c07Case) (res *c07Built, perr error) {
 	}
 	x, y, c3 := res.ops[0], res.ops[1], res.ops[2]
 	z, r := res.dst[0], res.dst[1]
+	err = c07Call(cc, k.B, x, y, c3, z, r, k.Prm)
+	res.err = err
+	res.ngates = len(cc.Gates)
+	return res, nil
+}
+
+// c07Call calls the exported builder with code b.
+func c07Call(cc *circuits.Compiler, b int, x, y, c3, z, r []*circuits.Wire, prms []int) (err error) {
 	prm := func(i int) int {
-		if i < len(k.Prm) {
-			return k.Prm[i]
+		if i < len(prms) {
+			return prms[i]
 		}
 		return 0
 	}
-	switch k.B {
+	switch b {
 	case bAdder:
 		err = circuits.NewAdder(cc, x, y, z)
 	case bSub:
@@ -225,11 +233,9 @@ func c07Build(k c07Case) (res *c07Built, perr error) {
 	case bUDivLong:
 		err = circuits.NewUDividerLong(cc, x, y, z, r)
 	default:
-		err = fmt.Errorf("unknown builder %d", k.B)
+		err = fmt.Errorf("unknown builder %d", b)
 	}
-	res.err = err
-	res.ngates = len(cc.Gates)
-	return res, nil
+	return err
 }
 
 type c07Gate struct{ op, a, b, o int }
@@ -1073,6 +1079,7 @@ func runC07(c *Ctx) error {
 		c07Run(c, r, k, exh, nrand)
 	}
 	c.Note("%d builder configurations", len(cases))
+	c07AliasRun(c)
 	return nil
 }
 
